@@ -4,6 +4,7 @@
 package worker
 
 import (
+	"runtime"
 	"encoding/json"
 	"fmt"
 	"os"
@@ -90,6 +91,13 @@ func TestWorker(t *testing.T) {
 		// the process; the driver then repeats the run alone to confirm.
 		wd := time.AfterFunc(runLimit, func() {
 			fmt.Printf("WATCHDOG: run index=%d seed=%d did not return within %v (hang)\n", i, seed, runLimit)
+			// where everybody is (for the log the driver keeps)
+			buf := make([]byte, 1<<20)
+			n := runtime.Stack(buf, true)
+			if n > 60000 {
+				n = 60000
+			}
+			fmt.Printf("%s\n", buf[:n])
 			os.Exit(3)
 		})
 		tape := sim.NewTape(seed)
